@@ -1,5 +1,6 @@
 import CTV.Lemmas.FrontEnd
 import CTV.Model.HandlerSpec
+import CTV.Model.HandlerSpec
 import CTV.Rfc6962.Wire
 /-!
 # C06 — the log front end presents one verifiable, append-only history
@@ -32,16 +33,14 @@ theorem sth_faithful (b : Backend) (hts : b.tsNanos < 2 ^ 64) (hsz : b.leaves.le
     (served leafH nodeH emptyH b).ts = b.tsNanos / 1000000 ∧
     (served leafH nodeH emptyH b).root = mth leafH nodeH emptyH b.values := by
   refine ⟨?_, ?_, rfl⟩
-  · simp only [served, headOf, Backend.rpcLatestRoot, Gen.sthTreeSize, U64.wrap]; omega
-  · simp only [served, headOf, Backend.rpcLatestRoot, Gen.sthTimestamp, U64.wrap, U64.div]
-    have h0 : (0 : Int) ≤ (b.tsNanos : Int) := Int.natCast_nonneg _
-    have h1 : (b.tsNanos : Int) < 2 ^ 64 := by exact_mod_cast hts
-    omega
+  · simp only [served, headOf, Backend.rpcLatestRoot]
+    exact sthTreeSize_spec _ (Int.natCast_nonneg _) (by exact_mod_cast hsz)
+  · simp only [served, headOf, Backend.rpcLatestRoot]
+    rw [sthTimestamp_spec _ (Int.natCast_nonneg _) (by exact_mod_cast hts)]
 
 /-- The millisecond value is what a second-resolution or microsecond-resolution conversion would
     *not* give (non-vacuity of the timestamp clause). -/
-example : Gen.sthTimestamp 1704068148285903276 = 1704068148285 := by
-  simp [Gen.sthTimestamp, U64.wrap, U64.div]
+example : Gen.sthTimestamp 1704068148285903276 = 1704068148285 := by decide
 
 end
 
